@@ -23,6 +23,7 @@ type ctxSnap struct {
 	writeLog  int
 	mathApps  map[string][][]T
 	nnotes    map[string]bool
+	recips    map[string]T
 }
 
 func copyMap[K comparable, V any](m map[K]V) map[K]V {
@@ -35,7 +36,7 @@ func copyMap[K comparable, V any](m map[K]V) map[K]V {
 
 func (c *Ctx) snapshot() ctxSnap {
 	return ctxSnap{len(c.lines), len(c.obls), copyMap(c.declared), copyMap(c.initHeaps), copyMap(c.heapSorts),
-		copyMap(c.oblCount), copyMap(c.callOrd), len(c.writeLog), copyMap(c.mathApps), copyMap(c.notes)}
+		copyMap(c.oblCount), copyMap(c.callOrd), len(c.writeLog), copyMap(c.mathApps), copyMap(c.notes), copyMap(c.recips)}
 }
 
 func (c *Ctx) restore(s ctxSnap) {
@@ -48,6 +49,7 @@ func (c *Ctx) restore(s ctxSnap) {
 	c.callOrd = s.callOrd
 	c.mathApps = s.mathApps
 	c.notes = s.nnotes
+	c.recips = s.recips
 }
 
 var symNumRe = regexp.MustCompile(`([A-Za-z0-9_.$#]*)!(\d+)`)
@@ -176,7 +178,7 @@ func (fr *Frame) cutLoop(li *loopInfo) *State {
 		k := c.heapSortOf(name, entry)
 		hcur := c.heap(st, name, k)
 		for _, key := range keyed[name] {
-			hcur = sto(hcur, key, c.fresh("Hk_"+name, k.elem()))
+			hcur = c.sto(hcur, key, c.fresh("Hk_"+name, k.elem()))
 			kk := key
 			c.writeLog = append(c.writeLog, writeRec{heap: name, key: &kk, sort: k})
 		}
